@@ -6,6 +6,7 @@ import (
 	"fmt"
 	"sync"
 
+	"berty.tech/go-orbit-db/verifhook"
 	"github.com/libp2p/go-libp2p/core/event"
 	"github.com/libp2p/go-libp2p/p2p/host/eventbus"
 )
@@ -148,6 +149,7 @@ func (e *EventEmitter) handleSubscriber(ctx context.Context, sub event.Subscript
 		condProcess.L.Lock()
 		for ctx.Err() == nil {
 			if queue.Len() == 0 {
+				verifhook.At("emitter.before.wait", cevent)
 				condProcess.Wait()
 				continue
 			}
@@ -156,6 +158,7 @@ func (e *EventEmitter) handleSubscriber(ctx context.Context, sub event.Subscript
 
 			// Unlock cond mutex while sending the event
 			condProcess.L.Unlock()
+			verifhook.At("emitter.dequeued", cevent, e)
 
 			select {
 			case <-ctx.Done():
